@@ -67,6 +67,13 @@ def corpus20():
                           ("if", [(("atom", ("add", v("f"), v("g")), "==", c(1)), [("assign", "x", P.det(("add", v("x"), v("r"))))])], None),
                           ("assign", "r", P.det(("sub", c(1), v("r"))))]},
                 [{"x": 1}, {"r": 1}], "tag-named-variable+later-alias"))
+    # user identifiers spelled exactly like generated names (_t<k>): they are reserved per program, so no state of the
+    # name counter may hand them out as temporaries of the simultaneous assignment
+    out.append(({"types": [], "init": [("assign", "_t2", P.det(c(1))), ("assign", "_t5", P.det(c(2))), ("assign", "_t9", P.det(c(3))),
+                                       ("assign", "x", P.det(c(0))), ("assign", "y", P.det(c(1)))], "guard": ("true",),
+                 "body": [("simult", [("x", P.det(("add", v("y"), v("_t2")))), ("y", P.det(("add", v("x"), v("_t5"))))]),
+                          ("assign", "_t9", P.det(("add", v("_t9"), v("x"))))]},
+                [{"x": 1}, {"_t9": 1}, {"y": 1}], "user-names-like-generated"))
     # conditioned draw (error outcome is sensitive to a leaked cond2arithm)
     out.append(({"types": [], "init": [("assign", "f0", P.det(c(0))), ("assign", "d0", P.det(c(0))), ("assign", "a0", P.det(c(0)))],
                  "guard": ("true",),
@@ -295,6 +302,11 @@ def run(ctx):
         # hash seeds
         for seed in ("1", "2", "3"):
             add("hash-seed", bi, [stepB], 0, f"B under PYTHONHASHSEED={seed}", seed=seed)
+    # the name counter moved to exactly the index of a user identifier spelled like a generated name
+    for bi, B in enumerate(progs):
+        if B[2] == "user-names-like-generated":
+            for k in (1, 2, 4, 5, 8, 9):
+                add("after-other-programs", bi, [{"op": "names", "tags": ["u"] * k}, goals_step(B[0], B[1])], 1, f"{k} names requested, B")
     # settings prefixes (a subset of programs)
     sub = list(range(len(progs)))[:ctx.pick(4, 20)]
     for bi in sub:
@@ -346,9 +358,10 @@ def run(ctx):
         if m["kind"] == "same-program-twice":
             report(ctx, "same-program-twice:first-run", B, first, "B (first of two)", ref, r["steps"][0], hist, extra)
         # generated names of a run lie in [counter_before, counter_after)
-        for st in r["steps"]:
+        for st_in, st in zip(t["steps"], r["steps"]):
             if "flat_text" in st:
-                ks = [int(re.search(r"\d+$", nm).group(0)) for nm in set(GEN.findall(st["flat_text"]))
+                user_ids = set(re.findall(r"[A-Za-z_][A-Za-z_0-9]*", st_in.get("text", "")))   # identifiers the user wrote are not generated
+                ks = [int(re.search(r"\d+$", nm).group(0)) for nm in set(GEN.findall(st["flat_text"])) - user_ids
                       if re.match(r"^_(u|k|c|t|a|prob|old|r)\d+$", nm) and not re.match(r"^_(u|k|c|t|a|prob|old|r)0\d", nm)]
                 src = set(st.get("source_variables", []))
                 ks = [k for k in ks if True]
